@@ -132,8 +132,8 @@ func nestedMonitorRules(c *Ctx, rule string, restrict func(class string) bool) {
 			for _, w := range reach {
 				for _, h := range held {
 					cl := h.Path.Class()
-					if cl == w.ownClass {
-						continue
+					if cl == w.ownClass || c.P.condAliasClasses()[cl] == w.ownClass {
+						continue // the condition's own lock (also when it is a mutex the struct owns: NewCond(&p.mu))
 					}
 					if restrict != nil && !restrict(cl) {
 						continue
